@@ -14,6 +14,7 @@ from __future__ import annotations
 import datetime as dt_
 import itertools
 
+from .. import worker
 from .. import core, obs, seeds
 from ..ref import calref
 from . import c18
@@ -386,8 +387,10 @@ def run_shard(shard):
                     f = (y, m, d) + t
                     acc.c["states"] += 1
                     for loc in shard["locales"]:
-                        check_tokens(acc, pendulum, z, f, loc, pairs=False)
-                    check_named(acc, pendulum, z, f)
+                        with worker.guarded(acc, "token", {"kind": "tok", "z": z, "f": list(f), "loc": loc}, 30):
+                            check_tokens(acc, pendulum, z, f, loc, pairs=False)
+                    with worker.guarded(acc, "named", {"kind": "named", "z": z, "f": list(f)}):
+                        check_named(acc, pendulum, z, f)
         acc.sample({"zone": str(shard["zones"][0]), "tokens": TOKENS, "locales": shard["locales"]})
     elif k == "pairs":
         for z, f in shard["values"]:
@@ -421,7 +424,8 @@ def run_shard(shard):
                                     if isinstance(z, int) and tzp == " z":
                                         continue
                                     for loc in shard["locales"]:
-                                        check_roundtrip(acc, pendulum, z, f, loc, fmt, full)
+                                        with worker.guarded(acc, "from_format", {"kind": "rt", "z": z, "f": list(f), "loc": loc, "fmt": fmt}):
+                                            check_roundtrip(acc, pendulum, z, f, loc, fmt, full)
                                         acc.c["nontrivial"] += 1
         acc.sample({"roundtrip_format": DATE_PARTS[3] + " " + TIME_PARTS[2] + ".SSSSSS Z", "zones": [str(z) for z in shard["zones"]]})
     elif k == "locales":
